@@ -13,8 +13,8 @@ PyValidate.lean other than the CPython-level vocabulary of Py/Val.lean
 * `Conv E tt v w`    — `w` is the documented conversion of the assigned value `v`.
 -/
 import TraitsVerif.Model.PyValidate
-namespace TraitsVerif.Model
-open TraitsVerif TraitsVerif.Py
+namespace TraitsVerif.Model.Val
+open TraitsVerif TraitsVerif.Py.Value
 
 /-- IEEE range membership with optional, possibly exclusive bounds: NaN is in no
 bounded range. -/
@@ -230,4 +230,4 @@ def mappedValue : TraitType → Val → Option Val
   | .noFast t, w => mappedValue t w
   | _, _ => none
 
-end TraitsVerif.Model
+end TraitsVerif.Model.Val
